@@ -510,7 +510,15 @@ def check_case(ctx, model, case, origin="gen"):
             break
         st = states[i]
         mL, mx = b2f(st["L"]), common.b2fs(st["x"])
-        ok = _rel(r["L"], mL, 8, TOL) and _vec_close(r["x"], mx, 1e-8)
+        okL = _rel(r["L"], mL, 8, TOL)
+        if not okL and kind in ("bb", "abb") and r.get("ips") is not None and r["ips"][0] > 0:
+            # the BB values are difference quotients: their rounding error is eps*|x|/|dx| (cancellation in dx, dg), which near
+            # convergence exceeds the fixed tolerance although both sides are right (seed 31: |dx| ~ 1e-8, L differs by 1e-8)
+            cond = math.sqrt((1.0 + float(r["x_before"] @ r["x_before"])) / r["ips"][0])
+            okL = cond * 1e-13 < 1e-3 and _rel(r["L"], mL, 1, max(8 * TOL, cond * 1e-13))
+            if okL:
+                ctx.count("run:L-within-conditioning-of-difference-quotient")
+        ok = okL and _vec_close(r["x"], mx, 1e-8)
         if ok and kind in ("ls", "rls"):
             ok = st["tried"] == len(r["tests"])
         if ok and case["accel"] and kind != "rls":
@@ -942,6 +950,73 @@ def check_reuse(ctx, n):
             ctx.disagree("stepsize.reuse", case, bad, "PolState.attach = PolState.init", oracle=oracle_reuse)
 
 
+_GRID = [0.0, 1.0, -1.0, 2.0, 1e200, 1e-200, float("inf"), float("nan")]
+
+
+def check_stub_bb_grid(ctx, model):
+    """exhaustive small scope for the two Barzilai-Borwein rules: real policy objects on a stub solver, the step (dx, dg) running
+    over ALL pairs of 2-vectors with entries in {0, 1, -1, 2, 1e200, 1e-200, inf, nan} (64 x 64 pairs: zero, orthogonal,
+    negative, overflowing, underflowing, infinite and NaN inner products in every combination), (a) from a fresh memory and
+    (b) for adaptive BB after one usable step (memory 2, 2): returned L and the memory against `bbRule` / `abbRule` at Float"""
+    import itertools
+
+    import scico.numpy as snp
+    from scico.optimize.pgm import AdaptiveBBStepSize, BBStepSize
+
+    vecs = [np.array(p, dtype=np.float64) for p in itertools.product(_GRID, repeat=2)]
+    n = 0
+    with np.errstate(all="ignore"):
+        for kind, warm in (("bb", False), ("abb", False), ("abb", True)):
+            if not ctx.thorough and kind == "abb" and not warm:
+                sub = vecs[:: 3]
+            else:
+                sub = vecs if ctx.thorough else vecs[:: 2]
+            for dx in sub:
+                for dg in (vecs if ctx.thorough else vecs[1:: 2] + vecs[:8]):
+                    pol = BBStepSize() if kind == "bb" else AdaptiveBBStepSize(kappa=0.5)
+                    pgm = _StubPGM(1.0)
+                    pol.internal_init(pgm)
+                    seq = [(np.zeros(2), np.zeros(2))] + ([(np.array([1.0, 0.0]), np.array([2.0, 0.0]))] if warm else [])
+                    base_v, base_g = seq[-1]
+                    seq = seq + [(base_v + dx, base_g + dg)]
+                    mem = (None, None)
+                    L = None
+                    for j, (v, g) in enumerate(seq):
+                        pgm.f.next_grad = snp.array(g)
+                        Lprev = float(pgm.L)
+                        L = float(pol.update(snp.array(v)))
+                        if j == 0:
+                            continue
+                        pv, pg = seq[j - 1]
+                        ddx, ddg = snp.array(v) - snp.array(pv), snp.array(g) - snp.array(pg)
+                        xx = float(snp.real(snp.sum(ddx.conj() * ddx)))
+                        xg = float(snp.real(snp.sum(ddx.conj() * ddg)))
+                        gg = float(snp.real(snp.sum(ddg.conj() * ddg)))
+                        case = {"what": "stub-grid", "kind": kind, "warm": warm, "dx": dx.tolist(), "dg": dg.tolist(), "call": j,
+                                "ips": [xx, xg, gg], "Lprev": Lprev}
+                        if kind == "bb":
+                            mL = b2f(model.call("bb", Lprev=f2b(Lprev), xg=f2b(xg), gg=f2b(gg)))
+                            okk = _same(L, mL)
+                        else:
+                            out = model.call("abb", kappa=f2b(0.5), Lprev=f2b(Lprev), m1=_optb(mem[0]), m2=_optb(mem[1]), xx=f2b(xx), xg=f2b(xg), gg=f2b(gg))
+                            mm = (None if out["m1"] is None else b2f(out["m1"]), None if out["m2"] is None else b2f(out["m2"]))
+                            ia = (None if pol.Lbb1prev is None else float(pol.Lbb1prev), None if pol.Lbb2prev is None else float(pol.Lbb2prev))
+                            okk = _same(L, b2f(out["L"])) and all((a is None and b_ is None) or (a is not None and b_ is not None and _same(a, b_)) for a, b_ in zip(ia, mm))
+                            mem = mm
+                            mL = b2f(out["L"])
+                        if not okk:
+                            ctx.disagree("stepsize.stub.grid", case, L, mL)
+                        if not (math.isfinite(L) and L > 0) and math.isfinite(Lprev) and Lprev > 0:
+                            ctx.violation({"kind": "failing-input", "case": case, "failing": {"why": "returned L is not a finite positive number", "L": L}}, True,
+                                          "stepsize.stub.grid: property fails on the implementation")
+                        pgm.L = L
+                    n += 1
+                    ctx.case({"what": "stub-grid", "kind": kind, "warm": warm}, f"grid:{kind}:{warm}:{dx.tolist()}:{dg.tolist()}")
+    ctx.count(f"stub-grid:pairs={n}")
+    ctx.extra["exhaustive_bb"] = (f"BB / adaptive BB on all pairs of special-value 2-vectors ({n} histories"
+                                  + ("" if ctx.thorough else "; quick tier: every second / third pair, all pairs in the thorough tier") + ")")
+
+
 def _corpus():
     d = common.CORPUS_DIR / PROP
     out = []
@@ -962,6 +1037,7 @@ def correspond(ctx, model):
         check_case(ctx, model, case, origin="crafted")
     check_stub_histories(ctx, model, ctx.n(60, 600))
     check_stub_search(ctx, model)
+    check_stub_bb_grid(ctx, model)
     check_blocks(ctx, ctx.n(12, 150))
     check_reuse(ctx, ctx.n(16, 150))
     n = ctx.n(220, 1500)
